@@ -30,6 +30,16 @@ inductive PErr where
   | badValue (name value : String)   -- "invalid value %q for flag -%s"
   deriving DecidableEq, Repr
 
+/-- the error text of the flag package (`quote` is `%q`); a value that does not parse is reported as "parse error"
+for booleans and durations alike -/
+def PErr.message (quote : String → String) : PErr → String
+  | .badSyntax w => "bad flag syntax: " ++ w
+  | .notDefined n => "flag provided but not defined: -" ++ n
+  | .help => "flag: help requested"
+  | .badBool n v => "invalid boolean value " ++ quote v ++ " for -" ++ n ++ ": parse error"
+  | .needsArg n => "flag needs an argument: -" ++ n
+  | .badValue n v => "invalid value " ++ quote v ++ " for flag -" ++ n ++ ": parse error"
+
 /-- `strconv.ParseBool`: exactly these twelve spellings -/
 def parseBool (s : String) : Option Bool :=
   if s = "1" ∨ s = "t" ∨ s = "T" ∨ s = "TRUE" ∨ s = "true" ∨ s = "True" then some true
